@@ -3,10 +3,12 @@ use crate::engine::Session;
 use std::path::Path;
 
 pub mod c08;
+pub mod c09;
 
 pub fn run(session: &Session) -> i32 {
     match session.id {
         "C08" => c08::run(session),
+        "C09" => c09::run(session),
         other => {
             println!("INCONCLUSIVE property={other} no check registered");
             2
@@ -17,6 +19,7 @@ pub fn run(session: &Session) -> i32 {
 pub fn replay(session: &Session, path: &Path) -> i32 {
     match session.id {
         "C08" => crate::engine::replay(session, &c08::C08, path),
+        "C09" => crate::engine::replay(session, &c09::C09, path),
         other => {
             println!("INCONCLUSIVE property={other} no check registered");
             2
